@@ -472,3 +472,41 @@ impl SignerNode {
         (label, res.err().map(|e| format!("{e:?}")))
     }
 }
+
+/// Reference for the transactions Merkle root of a beacon: the repository's own importer and
+/// signable builder on a fresh store, importing the (simulated) chain once from scratch up to the
+/// beacon - what an honest signer that has just joined computes. One fresh store per query: the
+/// answer must not depend on what was imported before.
+pub fn reference_transactions_root(scratch: &Path, block: u64) -> anyhow::Result<String> {
+    use mithril_common::entities::{BlockNumber, ProtocolMessagePartKey};
+    use mithril_common::signable_builder::SignableBuilder;
+    let dir = scratch.join(format!("tx-reference-{block}"));
+    let _ = std::fs::remove_dir_all(&dir);
+    std::fs::create_dir_all(dir.join("stores"))?;
+    let config = Configuration { db_directory: dir.join("db"), data_stores_directory: dir.join("stores"), ..Configuration::new_sample("reference") };
+    let rt = new_runtime();
+    let logger = crate::agg::logger();
+    let root = rt.block_on(async move {
+        let builder = DependenciesBuilder::new(&config, logger.clone());
+        let tx_pool = Arc::new(builder.build_cardano_tx_sqlite_connection_pool("cardano-transaction.sqlite3", 1).await?);
+        let view: SharedView = Arc::new(Mutex::new(crate::chain::ChainView {
+            epoch: 0,
+            immutable: 0,
+            block: u64::MAX / 4,
+            stakes: Default::default(),
+            down: false,
+            pending: None,
+        }));
+        let block_scanner = Arc::new(crate::chain::SimBlockScanner { view });
+        let chain_data_store = Arc::new(SignerCardanoChainDataRepository::new(tx_pool.clone()));
+        let importer = Arc::new(SignerChainDataImporter::new(Arc::new(CardanoChainDataImporter::new(block_scanner, chain_data_store.clone(), logger.clone()))));
+        let builder = CardanoTransactionsSignableBuilder::<MKTreeStoreSqlite>::new(importer, chain_data_store);
+        let message = builder.compute_protocol_message(BlockNumber(block)).await?;
+        message
+            .get_message_part(&ProtocolMessagePartKey::CardanoTransactionsMerkleRoot)
+            .cloned()
+            .ok_or_else(|| anyhow::anyhow!("no transactions merkle root in the reference message"))
+    });
+    let _ = std::fs::remove_dir_all(&dir);
+    root
+}
